@@ -41,7 +41,12 @@ func c08Many(env *core.Env, c *c08Case) core.Verdict {
 	for i := 0; i < c.Many; i++ {
 		id := fmt.Sprintf("9421%02d", i+10)
 		units = append(units, id)
-		tree["regex-assembly/"+id+".ra"] = "   ##!> include words\n     entry" + id + "\n"
+		src := "   ##!> include words\n     entry" + id + "\n"
+		if c.Many%20 == 10 {
+			// 25 include lines per file: more than a thousand in the tree, a few dozen in every file
+			src += strings.Repeat("##!> assemble\n  ##!> include words\n  ##!=>\n  tail"+id+"\n##!<\n", 24)
+		}
+		tree["regex-assembly/"+id+".ra"] = src
 		conf.WriteString("SecRule ARGS \"@rx stale" + id + "\" \\\n    \"id:" + id + ",\\\n    phase:2,\\\n    deny\"\n")
 	}
 	tree["rules/REQUEST-942-APPLICATION-ATTACK-SQLI.conf"] = conf.String()
